@@ -425,6 +425,88 @@ def _search(self, inst, seed):
 _Base.native_search = _search
 
 
+HAS_TRAIT_Q = z3.Function("has_trait_answer", I, Bo)  # (only reached if the code starts asking for traits: nothing is known about the answer)
+
+
+class TraitVerify(Spec):
+    """
+    traits.SymbolTable.verify(op) - what "verified module" means for the cached lookup: it returns normally ONLY IF no two children of the table
+    carry the same StringAttr `sym_name` (NAME, 0 = none); it raises VerifyException only if there is such a pair (for a table of one region
+    with one block).  This is the `unique` hypothesis of unit CacheBuild.
+    """
+
+    prop, file, qualname = PROP, TR, "SymbolTable.verify"
+    raises_ok = ("VerifyException",)
+    modifies = ["dict#dom", "dict#val"]
+
+    def __init__(self):
+        from pyvc.engine import Res
+
+        def b_get_attr(ex, st, args, kw):
+            o = args[0].z
+            out = []
+            for named, bs in ex.split(st, NAME(o) != 0):
+                if named:
+                    out.append(Res("val", VRef(NAME(o), "StringAttr"), bs))
+                    continue
+                for absent, bs2 in ex.split(bs, z3.Bool(f"sym_name_absent_{o}")):
+                    out.append(Res("val", None if absent else VRef(bs2.fresh_int("other_attr"), "OtherAttr"), bs2))
+            return out
+
+        self.calls = {".get_attr_or_prop": Builtin(b_get_attr, "o.get_attr_or_prop('sym_name'): the StringAttr naming the symbol (code NAME(o)), another attribute, or None"),
+                      ".has_trait": Builtin(lambda ex, st, a, k: [Res("val", VBool(HAS_TRAIT_Q(a[0].z)), st)], "has_trait(...): uninterpreted answer"),
+                      "SymbolOpInterface": Builtin(lambda ex, st, a, k: [Res("val", VRef(z3.IntVal(77), "OpTrait"), st)], "a trait object")}
+
+    @property
+    def globals(self):
+        def isinst(ex, st, v, cls):
+            if isinstance(cls, VGlobal) and cls.text == "StringAttr":
+                return isinstance(v, VRef) and v.cls == "StringAttr"
+            return None
+
+        def getattr_(ex, st, base, attr):
+            if base.cls == "StringAttr" and attr == "data":
+                return VRef(base.z, "str")
+            return None
+
+        return {"__isinstance__": isinst, "__getattr__": getattr_, "StringAttr": VGlobal("StringAttr"), "__fstring__": lambda ex, st, parts: VRef(z3.IntVal(1), "str")}
+
+    def setup(self, st, inst):
+        t = st.declare_input("op", z3.Int("op"))
+        return {"self": VRef(z3.IntVal(1), "SymbolTableTrait"), "op": VRef(t, "Operation"), "_t": t}
+
+    def bind(self, st, a, inst):
+        return {"len(op.regions) != 1": False, "len(op.regions[0].blocks) != 1": False,
+                "op.regions[0].blocks[0]": VRef(z3.Int("block"), "Block"), "block.ops": children_seq(a["_t"])}
+
+    def pre(self, st, a):
+        return [A("objects", z3.And(a["_t"] != 0, NCH(a["_t"]) >= 0))]
+
+    @staticmethod
+    def unique_upto(t, k):
+        i, j = z3.Ints("tv!i tv!j")
+        return forall([i, j], z3.Implies(z3.And(i >= 0, i < k, j >= 0, j < k, i != j, NAME(CH(t)[i]) != 0), NAME(CH(t)[i]) != NAME(CH(t)[j])))
+
+    def inv(self, n, entry, st, a, lv):
+        t, k = a["_t"], lv["k"]
+        met = lv["env"]["met_names"].z
+        x, j = z3.Ints("ti!x ti!j")
+        return [A("met-names-are-the-names-seen-so-far", forall([x], st.dict_has(met, x) == z3.And(x != 0, z3.Exists([j], z3.And(j >= 0, j < k, NAME(CH(t)[j]) == x))))),
+                A("no-duplicate-so-far", self.unique_upto(t, k))]
+
+    def post(self, old, st, a, res):
+        return [C("accepted-only-if-no-two-children-define-the-same-symbol", self.unique_upto(a["_t"], NCH(a["_t"])))]
+
+    def post_exc(self, old, st, a, exc):
+        if exc == "VerifyException":
+            return [C("rejected-only-if-two-children-define-the-same-symbol", z3.Not(self.unique_upto(a["_t"], NCH(a["_t"]))))]
+        return None
+
+    def native_search(self, inst, seed):
+        r = N29.explore("quick", seed)
+        return r["failures"][0] if r["failures"] else None
+
+
 def make_specs(tier):
     specs = []
 
@@ -439,6 +521,7 @@ def make_specs(tier):
     add(LookupNearest(), [{}])
     add(CacheBuild(), [{}])
     add(CacheLookup(), [{"attr": False}, {"attr": True}])
+    add(TraitVerify(), [{}])
     return specs
 
 
